@@ -158,6 +158,13 @@ def template_def(rng, prof):
                                "concurrency": rng.choice([lit(2), lit(2), lit(3)])}}),
                  T("z")]
         feat = "tpl_items_long"
+    elif k == 17:  # nested joins with a side branch that leaves one inner branch before the inner join
+        tasks = [T("a", [tr(["p1", "q1"], None, [["va", lit(rng.randint(1, 50))]])]),
+                 T("p1", [tr(["p2"], None, [["vp1", lit(2)]])]), T("p2", [tr(["j"], None, [["vp2", lit(3)]])]),
+                 T("q1", [tr(["q2", "r"], None, [["vq1", lit(4)]])]), T("q2", [tr(["j"], None, [["vq2", lit(5)]])]),
+                 T("j", [tr(["d"], None, [["vj", lit(6)]])], join="all"), T("r", [tr(["d"], None, [["vr", lit(7)]])]),
+                 T("d", join="all", input=[["a", ctx("vp1")], ["b", ctx("vq2")], ["c", ctx("vr")]])]
+        feat = "tpl_nested_joins"
     else:         # two publish-only transitions and a noop ending
         tasks = [T("a", [tr(["b", "c"])]), T("b", [tr(["noop"], None, [["x", lit(1)]])]),
                  T("c", [tr(["continue"], None, [["v1", fn("result")]]), tr(["continue"], None, [["v2", lit(7)]])])]
@@ -174,6 +181,10 @@ def template_def(rng, prof):
     if feat == "tpl_failure_publish":
         d["vars"] += [["err", lit(None)], ["err2", lit(None)]]
         d["output"] += [["oerr", ctx("err")], ["oerr2", ctx("err2")]]
+    if feat == "tpl_nested_joins":
+        for v in ("va", "vp1", "vp2", "vq1", "vq2", "vj", "vr"):
+            d["vars"].append([v, lit(0)])
+            d["output"].append(["o" + v, ctx(v)])
     if feat == "tpl_split_routes":
         d["output"] += [["opa", ctx("pa")], ["opb", ctx("pb")]]
     if feat == "tpl_publish_race":
